@@ -501,7 +501,8 @@ func genLifecycle() {
 	} else {
 		fail("manager.handleStateOpen not found")
 	}
-	for _, nm := range []string{"spendAccount", "RecoverAccount", "WatchMatchedAccounts", "start", "InitAccount", "RenewAccount"} {
+	for _, nm := range []string{"spendAccount", "RecoverAccount", "WatchMatchedAccounts", "start", "InitAccount", "RenewAccount",
+		"DepositAccount", "WithdrawAccount"} {
 		fd := findFunc(acctFiles, "manager."+nm)
 		if fd == nil {
 			fail("manager.%s not found", nm)
